@@ -1,4 +1,5 @@
 #include "chibicc.h"
+#include <sys/resource.h>
 
 typedef enum {
   FILE_NONE, FILE_C, FILE_ASM, FILE_OBJ, FILE_AR, FILE_DSO,
@@ -772,7 +773,22 @@ static FileType get_file_type(char *filename) {
   error("<command line>: unknown file extension: %s", filename);
 }
 
+// The parser and the code generator recurse once per nesting level
+// of the input, and a long chain such as `x + x + ... + x` is a
+// left-deep tree. Raise the soft stack limit (as gcc does) so that
+// large machine-generated inputs do not overflow the default 8 MiB.
+static void raise_stack_limit(void) {
+  struct rlimit rl;
+  rlim_t want = 512L * 1024 * 1024;
+  if (getrlimit(RLIMIT_STACK, &rl) != 0 || rl.rlim_cur == RLIM_INFINITY ||
+      rl.rlim_cur >= want)
+    return;
+  rl.rlim_cur = (rl.rlim_max == RLIM_INFINITY || rl.rlim_max > want) ? want : rl.rlim_max;
+  setrlimit(RLIMIT_STACK, &rl);
+}
+
 int main(int argc, char **argv) {
+  raise_stack_limit();
   atexit(cleanup);
   init_macros();
   parse_args(argc, argv);
